@@ -51,12 +51,16 @@ def _param(rng, scalar, frac=True):
     if scalar:
         return m if rng.random() < 0.7 else int(round(m))
     v = float(np.round(rng.uniform(0, 4), 3)) if rng.random() < 0.85 else 0.0
+    if rng.random() < 0.1:
+        sc = float(10.0 ** rng.integers(-12, 10))
+        m, v = m * sc, v * sc * sc
     return (m, v)
 
 
 def _random_interventions(rng, p, scalar_rate=0.3):
     dicts = {"do": {}, "noise": {}, "shift": {}}
-    for j in range(p):
+    # keys are inserted in random (not ascending) order: the dict order must not matter
+    for j in (int(v) for v in rng.permutation(p)):
         kind = int(rng.integers(0, 8)) if rng.random() < 0.6 else 0
         if kind & 1:
             dicts["do"][j] = _param(rng, rng.random() < scalar_rate)
@@ -78,6 +82,9 @@ def _random_model(rng, p, band):
     means = np.round(rng.uniform(-3, 3, p), 4)
     variances = np.round(rng.uniform(0.01, 5, p), 4)
     variances[rng.random(p) < 0.1] = 0.0
+    if rng.random() < 0.25:      # the law is scale-equivariant: tiny and huge scales must be honoured as well
+        sc = float(10.0 ** rng.integers(-12, 10))
+        means, variances = means * sc, variances * sc * sc
     return W, means, variances
 
 
@@ -113,17 +120,18 @@ def gen(tier, seed, shard, nshards):
             forms = [("dict" if d[x] else ("{}" if rng.random() < 0.5 else "None")) for x in ("do", "noise", "shift")]
             yield "random", {"W": W, "means": means, "variances": variances, "iv": d, "forms": forms}
     # (c) dtypes / container forms
-    dts = ["int64", "int32", "float32", "float64"]
+    dts = ["int64", "int32", "float32", "float64", "int8", "uint8", "int16", "float16"]
     for k in range(N[tier]["dtype"]):
         if k % nshards == shard:
             rng = util.rng_for("C01", seed, "dtype", k)
             p = int(rng.integers(1, 7))
             out = gmat.random_dag_masks(rng, p)
-            dW, dm, dv = dts[k % 4], dts[(k // 4) % 4], dts[(k // 16) % 4]
-            W = gmat.weighted(rng, out, "int").astype(dW) if dW.startswith("int") else \
+            dW, dm, dv = dts[k % 8], dts[(k // 8) % 8], dts[(k // 64) % 8]
+            isint = lambda d: d.startswith("int") or d.startswith("uint")
+            W = (np.abs(gmat.weighted(rng, out, "int")) if dW.startswith("uint") else gmat.weighted(rng, out, "int")).astype(dW) if isint(dW) else \
                 (gmat.weighted(rng, out, "int") * 0.5).astype(dW)
-            means = rng.integers(-4, 5, p).astype(dm) if dm.startswith("int") else (rng.integers(-8, 9, p) * 0.25).astype(dm)
-            variances = rng.integers(0, 4, p).astype(dv) if dv.startswith("int") else (rng.integers(0, 9, p) * 0.25).astype(dv)
+            means = rng.integers(0 if dm.startswith("uint") else -4, 5, p).astype(dm) if isint(dm) else (rng.integers(-8, 9, p) * 0.25).astype(dm)
+            variances = rng.integers(0, 4, p).astype(dv) if isint(dv) else (rng.integers(0, 9, p) * 0.25).astype(dv)
             d = _random_interventions(rng, p, scalar_rate=0.4)
             forms = [("dict" if d[x] else ("{}" if rng.random() < 0.5 else "None")) for x in ("do", "noise", "shift")]
             yield "dtype", {"W": W, "means": means, "variances": variances, "iv": d, "forms": forms,
